@@ -19,6 +19,7 @@ use gsam::{
     io::{Container, bam_payload, read_bam_eager, read_bam_lazy, std_gheader, std_header, write_bam},
     model::diff,
     rawbam::{self, reg2bin},
+    reuse::{self, Fmt},
     spec::{expect_bam, norm_bam},
 };
 use noodles_sam::{self as sam, alignment::RecordBuf};
@@ -296,6 +297,23 @@ fn body(ch: &Chooser, cfg: &Cfg) -> Outcome {
         }
     }
 
+    // ---- the same bytes read into one reused, pre-dirtied RecordBuf ---------------------------------
+    // (nothing of the buffer's earlier content or of the previous record may survive)
+    match reuse::read_reused_dirty(Fmt::Bam(container), &bytes) {
+        Err(e) => return v("read-reused", "record", "own-output-unreadable", "Ok".into(), format!("Err({e})")),
+        Ok(got) => {
+            if got.len() != eager.len() {
+                return v("read-reused", "layout", "record-count", eager.len().to_string(), got.len().to_string());
+            }
+            for (i, (f, r)) in eager.iter().zip(&got).enumerate() {
+                if let Some((fld, a, b)) = diff(f, r) {
+                    let stage = if i == ix { "read-reused" } else { "read-reused-neighbour" };
+                    return v(stage, &fld, "reused-buffer-differs-from-fresh", format!("fresh: {a}"), format!("reused: {b}"));
+                }
+            }
+        }
+    }
+
     // ---- lazy ≡ eager ----------------------------------------------------------------------------
     let (h3, lazies) = match read_bam_lazy(&bytes, container) {
         Ok(x) => x,
@@ -402,6 +420,35 @@ fn body(ch: &Chooser, cfg: &Cfg) -> Outcome {
     }
 }
 
+/// Ordered pairs and triples of records that differ in which optional fields are present, written as
+/// one file and read through every reader entry point (see `gsam::reuse`).
+fn reuse_body(ch: &Chooser, set: &[(&'static str, GRec)], header: &sam::Header, containers: &[Container]) -> Outcome {
+    const POS: [&str; 3] = ["first", "second", "third"];
+    let container = *ch.pick_free("container", containers);
+    let len = *ch.pick_free("length", &[2usize, 3]);
+    let idx: Vec<usize> = (0..len).map(|i| ch.free(POS[i], set.len())).collect();
+    let seq: Vec<&GRec> = idx.iter().map(|&i| &set[i].1).collect();
+    let labels: Vec<&str> = idx.iter().map(|&i| set[i].0).collect();
+    let describe = || {
+        let recs: Vec<String> = seq.iter().map(|g| g.render()).collect();
+        format!("3 references; {container:?} BAM file of records [{}]: {}", labels.join(", "), recs.join(" | "))
+    };
+    ch.desc(|| describe());
+    match reuse::check_sequence(Fmt::Bam(container), header, &seq) {
+        Ok(n) => {
+            ch.obs_hash(n); // file length: an output, not the choice vector
+            ch.steps(len as u64 * 8);
+            Ok(())
+        }
+        Err(m) => Err(Violation::new(
+            format!("stage=reuse reader={} field={} symptom=record-differs-from-its-expectation", m.reader, m.field),
+            describe(),
+            format!("record {} ({}): {}", m.index, labels.get(m.index).copied().unwrap_or("?"), m.expected),
+            m.observed,
+        )),
+    }
+}
+
 fn main() {
     // The heavy alphabet entries allocate and free ~1 MiB vectors tens of thousands of times; keep
     // that memory in the heap instead of paying an mmap/munmap + page-fault round per vector.
@@ -417,9 +464,23 @@ fn main() {
              dictionary present/absent x file shape (1 record raw stream, 3 records raw, 3 records BGZF); distinct = distinct \
              (outcome, wire core fields, decoded record) observations",
         );
+        ctx.rule(
+            "reuse: every ordered pair and triple over 20 records differing in which optional fields are present (all / none / \
+             each single field or tag missing / shorter / longer) x {raw, BGZF}, each file read through 8 reader entry points \
+             (fresh, reused clean, reused dirty RecordBuf, record_bufs(), reused/fresh lazy record, records(), lazy->reused RecordBuf); \
+             every grammar execution also re-reads its file into one reused pre-dirtied RecordBuf",
+        );
         ctx.assume("miniz_oxide inflate + crc32fast (BGZF walker used to get at the wire bytes of BGZF-wrapped files)");
         ctx.assume("RecordBuf setters/constructors store the given field values (checked per execution by viewing the built record)");
         let headers: Vec<sam::Header> = (0..=3).map(std_header).collect();
+        // field-presence transitions between consecutive records, every reader entry point
+        {
+            let set = reuse::record_set();
+            let h3 = headers[3].clone();
+            ctx.harness(Config::new("bam_reuse_pairs_triples", 0), |ch| {
+                reuse_body(ch, &set, &h3, &[Container::Raw, Container::Bgzf])
+            });
+        }
         if ctx.quick() {
             let cfg = Cfg {
                 alphabet: Alphabet::bam(false, true),
